@@ -8,7 +8,7 @@ RULE = ("correspondence: compress/decompress G1/G2, the byte-level helpers and m
         "random scalings; all 384-bit words: 8 flag combinations x {0,1,p-1,p,p+1,2^381-1,on-curve x,off-curve x} x second-word variants; "
         "predicates: round trip both ways against the independent ZCash oracle; known finding K1 replayed")
 HYPOTHESES = []
-NOT_YET_PROVED = ["G2 round trip / canonicity / accept set (needs the FQ2 square-root argument): correspondence + predicates only"]
+NOT_YET_PROVED = []
 ASSUMPTIONS = []
 nontrivial = nontrivial_default
 P = O.BLS_P
@@ -39,6 +39,9 @@ def g2_special(rng):
 
 def g2_points(rng, tier):
     pts = [None, O.g2(1), O.g2(rng.randrange(1, O.BLS_R)), O.rand_curve_point_g2(rng), O.torsion_g2(rng)] + g2_special(rng)
+    # y exactly at the boundary of the sign rule: imaginary part (p-1)/2 and (p+1)/2 (and the real-part analogue)
+    bd = O.g2_points_y_boundary(1 if tier == "quick" else 3)
+    pts += bd + [O.aff_neg(P) for P in bd]
     Q = O.rand_curve_point_g2(rng)
     pts += [Q, O.aff_neg(Q)]
     if tier == "thorough":
@@ -201,6 +204,8 @@ def predicates(rng, tier, only=None):
     z1, z2 = O.zcash_compress_g2(Q)
     pairs = [(w, rng.choice([0, 1, rng.randrange(P)])) for w in (rng.sample(ws, 12) if tier == "quick" else ws)]
     pairs += [(z1, z2), (z1, z2 | (1 << 383)), (z1, z2 | (1 << 381)), (z1, z2 + P), (z1 ^ (1 << 381), z2), (z1 | (1 << 382), z2), (z1 & ~(1 << 383), z2)]
+    inf1 = (1 << 383) | (1 << 382)
+    pairs += [(inf1, 0), (inf1, 1 << 383), (inf1, 1 << 382), (inf1, 1 << 381), (inf1, 7 << 381), (inf1, 1), (inf1, P), (inf1 | (1 << 381), 0)]
     for a, b_ in pairs:
         ps.append(Pred("g2-words", g2_word_pred, (a, b_)))
     if only:
